@@ -306,6 +306,7 @@ pub fn c04(cx: &Cx) -> i32 {
     let mut rep = cx.report("C04");
     run_bounds(cx, &mut rep, &["ES-bounds-trace", "ES-default-after-stop"]);
     crate::misc::bound_parse_rule(cx, &mut rep);
+    crate::misc::bound_syntax_rule(cx, &mut rep);
     crate::misc::wcb_rule(cx, &mut rep);
     type_items_empty_rule(cx, &mut rep);
     rep.assumptions = vec![
